@@ -19,7 +19,7 @@ EXPLANATION = (
 ASSUMPTIONS = ["pika::detail::unlock_guard unlocks in its constructor and locks in its destructor (thread_support/unlock_guard.hpp)",
                "notifiers acquire the user lock before notifying (user contract stated in the property)"]
 THOROUGH_CONFIGS = [["-UNDEBUG", "-DPIKA_DEBUG"]]
-FLOORS = {"C07.R1": 8, "C07.R2": 3, "C07.R3": 6, "C07.R4": 4, "C07.R5": 10, "C07.R6": 5}
+FLOORS = {"C07.R7": 20, "C07.R1": 8, "C07.R2": 3, "C07.R3": 6, "C07.R4": 4, "C07.R5": 10, "C07.R6": 5}
 
 INTERNAL = "data->mtx_"
 
@@ -331,3 +331,10 @@ def run(rep, tier):
                     "notify_one / notify_all on a plain OS thread that is in a timed condition-variable wait blocks the notifier forever while it holds the condition "
                     "variable's internal lock (the waiter then deadlocks on that lock at its deadline)" % nm)
 
+
+    # ---- R7: the stop-token waits register a stop_callback: the list it lives in and the hand-shake of its (de)registration are decided by C14's rules
+    from .common import import_rules
+    import_rules(rep, tier, "C14", ("C14.R3", "C14.R4", "C14.R9", "C14.R10"), "C07.R7",
+                 "K1/K2/K8 (shared with C14.R3/R4/R9/R10): stop-token waits are woken through a stop_callback on the token's state - the callback list stays a consistent "
+                 "doubly-linked list under the state's lock, every registered callback runs when stop is requested, a refused registration is not waited for: a wait(lock, "
+                 "stop_token, pred) whose stop is requested is woken whatever other waits on the same stop state did before")
